@@ -6,11 +6,6 @@ import TE.Lemmas.SyncObj
 namespace TE.Sync
 open TE.Spec.Sync
 
-/-- hypotheses on list states: every element on every rank has one dtype and one number of
-    dimensions (shapes otherwise arbitrary) and is well-formed. -/
-def ListSendable (n : Nat) (xs : Nat → List Tensor) (dt : DType) (k : Nat) : Prop :=
-  ∀ i, i < n → ∀ t ∈ xs i, t.dtype = dt ∧ t.shape.length = k ∧ t.WF
-
 /-! ### one cell over the rounds -/
 
 theorem listCell_updCell (r : Nat) (c : TState) (t : Tensor) (len : Nat) :
@@ -35,7 +30,7 @@ theorem cell_rounds (xs : List Tensor) (dm : Nat → Tensor) (c0 : TState) (hc0 
     by_cases hlt : m < xs.length
     · have : xs[m]? = some xs[m] := List.getElem?_eq_getElem hlt
       simp only [hlt, if_true, this]
-      rw [List.take_succ, this]; rfl
+      rw [List.take_add_one, this]; rfl
     · have hle : xs.length ≤ m := Nat.le_of_not_lt hlt
       simp only [hlt, if_false]
       rw [List.take_of_length_le hle, List.take_of_length_le (Nat.le_succ_of_le hle)]
@@ -58,23 +53,23 @@ theorem appendRound_map (r : Nat) (js : List Nat) (F : Nat → TState) (T : Nat 
 /-! ### the rounds loop on a whole group -/
 
 section rounds
-variable (g : List Nat) (n gws : Nat) (dst : Option Nat) (junk : Nat → Q)
+variable (g : List Nat) (n : Nat) (dst : Option Nat) (junk : Nat → Q)
 variable (xs : Nat → List Tensor) (D : Nat → DType) (S : Nat → List Nat)
 
 /-- the tensor member `j` sends in round `r`. -/
-def roundOf (j r : Nat) : Tensor := roundTensor (envOf n gws dst junk j) (xs j) (D j) (S j) r
+def roundOf (j r : Nat) : Tensor := roundTensor (envOf g n dst junk j) (xs j) (D j) (S j) r
 
-/-- the effect of round `r` on the first `n` cells of a receiving member's column. -/
+/-- the effect of round `r` on the cells of a receiving member's column. -/
 def stepF (F : Nat → TState) (r : Nat) : Nat → TState :=
-  fun j => updCell r (F j) (roundOf n gws dst junk xs D S j r) (xs j).length
+  fun j => updCell r (F j) (roundOf g n dst junk xs D S j r) (xs j).length
 
-/-- the column of member `i`: receiving members hold `F` in the first `n` cells. -/
-def colR (back c0 : List TState) (F : Nat → TState) (i : Nat) : List TState :=
-  if receives dst i then colF n F back else c0
+/-- the column of member `i`: receiving members hold `F`. -/
+def colR (c0 : List TState) (F : Nat → TState) (i : Nat) : List TState :=
+  if receives dst i then colF n F else c0
 
 theorem roundOf_sendable (dt : DType) (k : Nat) (hx : ListSendable n xs dt k)
     (hD : ∀ i, i < n → D i = dt ∧ (S i).length = k) (r : Nat) :
-    Sendable n (fun j => roundOf n gws dst junk xs D S j r) dt k := by
+    Sendable n (fun j => roundOf g n dst junk xs D S j r) dt k := by
   intro i hi
   simp only [roundOf, roundTensor]
   cases hget : (xs i)[r]? with
@@ -83,40 +78,53 @@ theorem roundOf_sendable (dt : DType) (k : Nat) (hx : ListSendable n xs dt k)
     refine ⟨(hD i hi).1, (hD i hi).2, ?_⟩
     simp [dummy, Tensor.WF]
 
-theorem yields_listRounds (hd : DstOk g dst) (hn : n ≤ gws) (dt : DType) (k : Nat)
+theorem yields_listRounds (hg : IsGroup g n) (hd : DstIn n dst) (dt : DType) (k : Nat)
     (hx : ListSendable n xs dt k) (hD : ∀ i, i < n → D i = dt ∧ (S i).length = k)
-    (back c0 : List TState) (hback : back.length = gws - n) :
+    (c0 : List TState) :
     ∀ (is : List Nat) (F : Nat → TState),
       Yields g ((List.range n).map fun i =>
-          listRounds (envOf n gws dst junk i) (xs i) ((List.range n).map fun j => (xs j).length) (D i) (S i) is
-            (colR n dst back c0 F i))
-        ((List.range n).map fun i => colR n dst back c0 (is.foldl (stepF n gws dst junk xs D S) F) i) := by
+          listRounds (envOf g n dst junk i) (xs i) ((List.range n).map fun j => (xs j).length) (D i) (S i) is
+            (colR n dst c0 F i))
+        ((List.range n).map fun i => colR n dst c0 (is.foldl (stepF g n dst junk xs D S) F) i) := by
   intro is
   induction is with
   | nil => intro F; exact yields_done g (List.range n) _
   | cons r is ih =>
     intro F
     simp only [listRounds, List.foldl_cons]
-    apply Yields.bind_map (G := fun i => gathered n dst (fun j => roundOf n gws dst junk xs D S j r) i)
-    · exact yields_sendTensors g n gws dst junk hd _ dt k (roundOf_sendable n gws dst junk xs D S dt k hx hD r)
+    apply Yields.bind_map (G := fun i => gathered n dst (fun j => roundOf g n dst junk xs D S j r) i)
+    · exact yields_sendTensors g n hg dst junk hd _ dt k (roundOf_sendable g n dst junk xs D S dt k hx hD r)
     · have hstep : ∀ i ∈ List.range n,
-          liftE (roundK ((List.range n).map fun j => (xs j).length) r (colR n dst back c0 F i)
-            (gathered n dst (fun j => roundOf n gws dst junk xs D S j r) i))
-          = Prog.done (colR n dst back c0 (stepF n gws dst junk xs D S F r) i) := by
+          liftE (roundK ((List.range n).map fun j => (xs j).length) r (colR n dst c0 F i)
+            (gathered n dst (fun j => roundOf g n dst junk xs D S j r) i))
+          = Prog.done (colR n dst c0 (stepF g n dst junk xs D S F r) i) := by
         intro i _
         cases hr : receives dst i
         · simp [gathered, hr, roundK, liftE, colR]
-        · have hlen : ¬ ((List.range n).map fun j => roundOf n gws dst junk xs D S j r).length
-              > (colF n F back).length := by
-            simp [colF, hback]
+        · have hlen : ¬ ((List.range n).map fun j => roundOf g n dst junk xs D S j r).length
+              > (colF n F).length := by
+            simp [colF]
           simp only [gathered, hr, if_true, allOf, roundK, colR, hlen, if_false, liftE]
-          rw [colF, appendRound_map]; rfl
+          have := appendRound_map r (List.range n) F (fun j => roundOf g n dst junk xs D S j r) (fun j => (xs j).length) []
+          simp only [List.append_nil] at this
+          rw [colF, this]; rfl
       rw [List.map_congr_left (g := fun i =>
-        listRounds (envOf n gws dst junk i) (xs i) ((List.range n).map fun j => (xs j).length) (D i) (S i) is
-          (colR n dst back c0 (stepF n gws dst junk xs D S F r) i))]
+        listRounds (envOf g n dst junk i) (xs i) ((List.range n).map fun j => (xs j).length) (D i) (S i) is
+          (colR n dst c0 (stepF g n dst junk xs D S F r) i))]
       · exact ih _
       · intro i hi
         rw [hstep i hi]; rfl
+
+/-- the cell of member `j` after rounds `0 … m-1`. -/
+theorem rounds_cell (F : Nat → TState) (hF : ∀ j, listCell (F j) = []) (m j : Nat) :
+    ((List.range m).foldl (stepF g n dst junk xs D S) F) j
+      = if m = 0 then F j else TState.list ((xs j).take m) := by
+  have h1 := foldl_pointwise (fun r c j => updCell r c (roundOf g n dst junk xs D S j r) (xs j).length)
+    (List.range m) id F j
+  have h2 := cell_rounds (xs j) (fun _ => dummy (envOf g n dst junk j) (D j) (S j)) (F j) (hF j) m
+  simp only [id] at h1
+  rw [← h2]
+  exact h1
 end rounds
 
 end TE.Sync
@@ -197,22 +205,22 @@ theorem foldl_max_rank (H : Nat → Option Tensor) (f : Nat → Int)
       | none => simp
       | some mx => simp <;> omega
 
-theorem exchange_broadcast (g : List Nat) (n m : Nat) (hm : m < n) (hr : RootOk g m) (O : Nat → Obj)
+theorem exchange_broadcast (g : List Nat) (n m gm : Nat) (hm : m < n) (hr : RootOk g m gm) (O : Nat → Obj)
     (hO : ∀ i, i < n → (O i != Obj.none) = (i == m)) :
-    exchange g ((List.range n).map fun i => Req.broadcastObj m (O i)) =
+    exchange g ((List.range n).map fun i => Req.broadcastObj gm (O i)) =
       .ok ((List.range n).map fun _ => Resp.obj (O m)) := by
   cases n with
   | zero => omega
   | succ n =>
-    have hb := bcastsOf_map (List.range (n + 1)) m O
-    have hrc : rootCheck g m ((List.range (n + 1)).map fun _ => m) ((List.range (n + 1)).map fun i => O i != Obj.none) = .ok m := by
+    have hb := bcastsOf_map (List.range (n + 1)) gm O
+    have hrc : rootCheck g gm ((List.range (n + 1)).map fun _ => gm) ((List.range (n + 1)).map fun i => O i != Obj.none) = .ok m := by
       have : ((List.range (n + 1)).map fun i => O i != Obj.none) = (List.range (n + 1)).map fun i => id i == m := by
         apply List.map_congr_left
         intro i hi
         exact hO i (List.mem_range.mp hi)
       rw [this]
-      exact rootCheck_ok g m hr (List.range (n + 1)) id (range_idx (n + 1))
-    have hget : ((List.range (n + 1)).map fun i => (m, O i))[m]? = some (m, O m) := by
+      exact rootCheck_ok g m gm hr (List.range (n + 1)) id (range_idx (n + 1))
+    have hget : ((List.range (n + 1)).map fun i => (gm, O i))[m]? = some (gm, O m) := by
       simp [List.getElem?_map, List.getElem?_range hm]
     rw [List.range_succ_eq_map] at hb hrc hget ⊢
     simp only [List.map_cons] at hb hrc hget ⊢
@@ -220,17 +228,17 @@ theorem exchange_broadcast (g : List Nat) (n m : Nat) (hm : m < n) (hr : RootOk 
     simp only [List.map_cons, List.map_map, Function.comp_def] at hrc hget ⊢
     simp only [hrc, hget]
 
-theorem yields_syncDtypeShape (g : List Nat) (n gws : Nat) (dst : Option Nat) (junk : Nat → Q)
-    (hroot : ∀ m, m < n → RootOk g m) (H : Nat → Option Tensor) :
-    Yields g ((List.range n).map fun i => syncDtypeShape (envOf n gws dst junk i) (H i))
+theorem yields_syncDtypeShape (g : List Nat) (n : Nat) (hg : IsGroup g n) (dst : Option Nat) (junk : Nat → Q)
+    (H : Nat → Option Tensor) :
+    Yields g ((List.range n).map fun i => syncDtypeShape (envOf g n dst junk i) (H i))
       ((List.range n).map fun _ => (lastSome H n).map fun mx => (mx.2.dtype, mx.2.shape)) := by
   simp only [syncDtypeShape]
-  apply Yields.bind_map (G := fun _ => (List.range n).map fun j => Obj.int (rankOrMinus1 (envOf n gws dst junk j) (H j)))
+  apply Yields.bind_map (G := fun _ => (List.range n).map fun j => Obj.int (rankOrMinus1 (envOf g n dst junk j) (H j)))
     (yields_allGatherObj g n _)
-  have hmapM : ((List.range n).map fun j => Obj.int (rankOrMinus1 (envOf n gws dst junk j) (H j))).mapM objInt
-      = some ((List.range n).map fun j => rankOrMinus1 (envOf n gws dst junk j) (H j)) :=
+  have hmapM : ((List.range n).map fun j => Obj.int (rankOrMinus1 (envOf g n dst junk j) (H j))).mapM objInt
+      = some ((List.range n).map fun j => rankOrMinus1 (envOf g n dst junk j) (H j)) :=
     mapM_map_some _ _ _ _ (fun _ _ => rfl)
-  have hmx : ((List.range n).map fun j => rankOrMinus1 (envOf n gws dst junk j) (H j)).foldl max (-1)
+  have hmx : ((List.range n).map fun j => rankOrMinus1 (envOf g n dst junk j) (H j)).foldl max (-1)
       = match lastSome H n with | some (m, _) => (m : Int) | none => -1 := by
     apply foldl_max_rank H
     intro j
@@ -247,9 +255,11 @@ theorem yields_syncDtypeShape (g : List Nat) (n gws : Nat) (dst : Option Nat) (j
     obtain ⟨hmn, hHm, hlast⟩ := hspec
     have hne : ((m : Int) == -1) = false := by
       rw [beq_eq_false_iff_ne]; omega
-    simp only [hne, Bool.false_eq_true, if_false, Int.toNat_natCast, Option.map_some]
+    have hml : m < g.length := by rw [hg.len]; exact hmn
+    obtain ⟨hget, hroot⟩ := rootOk_of_nodup g hg.nodup m hml
+    simp only [hne, Bool.false_eq_true, if_false, Int.toNat_natCast, Option.map_some, toGlobal, envOf, hget]
     apply Yields.coll_map (H := fun _ => Resp.obj (Obj.dsh x.dtype x.shape))
-    · have hO : ∀ i, i < n → (dtypePayload (envOf n gws dst junk i) (H i) (m : Int) != Obj.none) = (i == m) := by
+    · have hO : ∀ i, i < n → (dtypePayload (envOf g n dst junk i) (H i) (m : Int) != Obj.none) = (i == m) := by
         intro i hi
         simp only [dtypePayload, envOf]
         cases hHi : H i with
@@ -261,8 +271,8 @@ theorem yields_syncDtypeShape (g : List Nat) (n gws : Nat) (dst : Option Nat) (j
           · simp [him]
           · have : ((i : Int) == (m : Int)) = false := by rw [beq_eq_false_iff_ne]; omega
             simp [this, him]
-      have := exchange_broadcast g n m hmn (hroot m hmn) _ hO
-      have hpm : dtypePayload (envOf n gws dst junk m) (H m) (m : Int) = Obj.dsh x.dtype x.shape := by
+      have := exchange_broadcast g n m g[m] hmn hroot _ hO
+      have hpm : dtypePayload (envOf g n dst junk m) (H m) (m : Int) = Obj.dsh x.dtype x.shape := by
         simp [dtypePayload, envOf, hHm]
       rw [hpm] at this
       exact this
